@@ -765,6 +765,13 @@ fn exec_op(ctx: &mut Ctx, op: &Value, ev: &mut Map<String, Value>) {
     let i = op["i"].as_u64().unwrap_or(1);
     let name = op["op"].as_str().unwrap_or("");
     match name {
+        // test-only ops used by `./check selftest` to exercise the hang / abort plumbing of the driver
+        "sleep" => {
+            std::thread::sleep(std::time::Duration::from_millis(op["ms"].as_u64().unwrap_or(0)));
+        }
+        "abort" => {
+            std::process::abort();
+        }
         "new" => {
             ctx.parsers.insert(i, Parser::new());
             ctx.texts.insert(i, Vec::new());
